@@ -651,6 +651,30 @@ def lemma_CnfHolds_snoc():
     return {"name": "CnfHolds.snoc / ClauseHolds.snoc", "status": st, "parts": r1["parts"] + r2["parts"], "seconds": r1["seconds"] + r2["seconds"]}
 
 
+def lemma_SeenRank_step():
+    """the one-step unfolding of a bound-indexed `some` predicate (here SeenRank) follows from its
+    elimination / introduction axioms"""
+    from contracts import c_preocf as CP
+
+    ks = z3.Const("ks_sr", CP.LStr.sort)
+    vl = z3.Const("vl_sr", z3.ArraySort(StrSort, CP._OI.sort()))
+    w = z3.Const("w_sr", StrSort)
+    k, n = z3.Ints("k_sr n_sr")
+    P = CP.SeenRank
+    W = z3.Function("SeenRank!w", CP.LStr.sort, z3.ArraySort(StrSort, CP._OI.sort()), StrSort, L.Int, L.Int, L.Int)
+    v = CP._OI.wrap(z3.Select(vl, w))
+    last = z3.And(CP.LStr.at(ks, n - 1) == w, z3.Not(v.isnone), v.val.t == k)
+    return _prove(
+        "SeenRank.step",
+        [
+            ("=>", [n >= 1, P(ks, vl, w, k, n)], z3.Or(P(ks, vl, w, k, n - 1), last), [CP.LStr.at(ks, W(ks, vl, w, k, n))]),
+            ("<= prev", [n >= 1, P(ks, vl, w, k, n - 1)], P(ks, vl, w, k, n), [CP.LStr.at(ks, W(ks, vl, w, k, n - 1))]),
+            ("<= last", [n >= 1, last], P(ks, vl, w, k, n), [CP.LStr.at(ks, n - 1)]),
+        ],
+        exclude=["SeenRank.step"],
+    )
+
+
 def lemma_mem_at():
     mem, memw = L.mem_theory(L.Int)
     l = z3.Const("l_mat", LInt.sort)
@@ -667,6 +691,7 @@ LEMMAS = {
     "mem.at.Int": lemma_mem_at,
     "CoveredUpTo.snoc": lemma_CoveredUpTo_snoc,
     "KeySoftN.mono": lemma_KeySoftN_mono,
+    "SeenRank.step": lemma_SeenRank_step,
     "CnfHolds.snoc": lemma_CnfHolds_snoc,
     "MCS.bridge": lemma_MCS_bridge,
     "MCS.bridge2": lemma_MCS_bridge2,
